@@ -21,6 +21,7 @@ LAYOUT_COQ = {"models_dropped": "LModelsDropped", "models_wrong": "LModelsWrong"
               "meta_dropped": "LMetaDropped", "meta_wrong": "LMetaWrong", "meta_emptied": "LMetaEmptied"}
 FILE_KINDS = ["delete", "zero", "truncate", "garbage"]
 BREAKING = {("layout", "models_dropped"), ("layout", "models_wrong")} | {("file", k) for k in FILE_KINDS}
+SWAP = "index_swap_restart"   # rowids behind two keys of the primary-key index swapped, then a process restart
 DAY = 86400 * 10**6
 KNOWN_TAG = "db-fault-after-init-same-process"
 
@@ -149,6 +150,66 @@ BROKEN = [
 ]
 
 
+def families(rng):
+    """Families of DIFFERENT texts that a too-tolerant cache key would identify (validates the model's assumption
+    'key = text'): members differ only by trailing blanks, line terminators, blank lines, BOM, case, inner blanks,
+    non-ASCII characters, Unicode normal form, or far behind a long common prefix.  Some members have a syntax error
+    while their sibling has not, some parse to different trees (string literal contents, commented-out code); what
+    each member really is comes from the real uncached parser at run time."""
+    a, b = rng.sample(["x", "y", "z", "u", "v", "w", "p", "q"], 2)
+    M = rng.choice(["A", "B", "Tank", "Sys"])
+    k = rng.randint(2, 9)
+    lit = ("model %s\n  parameter String banner = \"first line   \n  second %d\";\n  Real %s;\nequation\n  %s = %d;\nend %s;\n"
+           % (M, k, a, a, k, M))
+    seps = ["\x0c", "\x0b", "\x1c", "\x1d", "\x1e", "\x85", "\u2028", "\u2029", "\r"]
+    sep1, sep2 = rng.sample(seps, 2)
+    com = "model %s // helper\n  Real %s;\n  Real %s;\nend %s;\n" % (M, a, b, M)
+    clo = "model %s Real %s = %d; // closing\nend %s;\n" % (M, a, k, M)
+    plain = "model %s\n  Real %s(start=%d);\nequation\n  der(%s) = -%s;\nend %s;\n" % (M, a, k, a, a, M)
+    uni = "model %s \"caf\u00e9 %d\"\n  Real %s;\nequation\n  %s = time;\nend %s;\n" % (M, k, a, a, M)
+    longc = "// " + "filler " * 1300 + "\n"
+    fams = [
+        [lit, lit.replace("first line   \n", "first line\n"), lit.replace("first line   \n", "first line\t\n"),
+         lit.replace("\n", "\r\n"), lit.replace("first line   \n", "first line   \r"), lit.replace("   \n  second", "   " + sep1 + "  second")],
+        [com, com.replace("helper\n", "helper" + sep1), com.replace("helper\n", "helper" + sep2), com.replace("helper\n", "helper  \n")],
+        [clo, clo.replace("closing\n", "closing" + sep1), clo.replace("closing\n", "closing" + sep2), clo.replace("closing\n", "closing \r\n")],
+        [plain, "\n\n" + plain, plain + "\n\n", plain[:-1], "\ufeff" + plain, plain.replace("\n", " \n"), plain.replace("\n", "\r\n"),
+         plain.replace("\n", "\r")],
+        [plain, plain.replace("Real " + a, "Real " + a.upper()), plain.replace("  Real", "\tReal"), plain.replace("der(", "der ("),
+         plain.replace("end %s;" % M, "end %s" % M), plain.lower()],
+        [uni, uni.replace("caf\u00e9", "cafe\u0301"), uni.replace("caf\u00e9", "caf"), uni.replace("caf\u00e9", "caf?"),
+         uni.replace("caf\u00e9 %d" % k, "caf\u00e9  %d" % k), uni.replace("caf\u00e9", "CAF\u00c9")],
+        [longc + plain, longc + plain.replace("start=%d" % k, "start=%d" % (k + 1)), longc + plain.replace("end %s;" % M, "end;")],
+    ]
+    out = []
+    for f in fams:
+        g = []
+        for t in f:
+            if t not in g:
+                g.append(t)
+        out.append(g)
+    return out
+
+
+def family_corpus(rng):
+    """every member of a family parsed against the same cache folder, in several orders, with reloads between"""
+    cases = []
+    for f in families(rng):
+        n = len(f)
+        order = list(range(n))
+        P = lambda t: ["parse", t, 30, 0]  # noqa: E731
+        hs = [[P(t) for t in order] + [P(t) for t in order],
+              [P(t) for t in reversed(order)] + [P(0)]]
+        sh = order[:]
+        rng.shuffle(sh)
+        h3 = []
+        for t in sh:
+            h3 += [P(t), ["reload"]] if rng.random() < 0.4 else [P(t)]
+        hs.append(h3 + [P(t) for t in sh])
+        cases += [{"texts": f, "ops": h} for h in hs]
+    return cases
+
+
 def gen_texts(rng):
     """4 texts that should parse + 2 with a syntax error (what the real parser says is recorded per run)."""
     def fill(t):
@@ -156,6 +217,9 @@ def gen_texts(rng):
         return t.format(M=rng.choice(["A", "B", "Tank", "M1", "Sys"]), a=names[0], b=names[1],
                         n=rng.choice(["1", "2.5", "3e-2", "10"]), k=rng.randint(1, 9))
     texts = [fill(t) for t in rng.sample(GOOD, 4)] + [fill(t) for t in rng.sample(BROKEN, 2)]
+    if rng.random() < 0.6:       # two siblings of one normalisation family among the texts
+        fam = rng.choice(families(rng))
+        texts[2:4] = rng.sample(fam, 2)
     out = []
     for t in texts:  # distinct texts (distinct keys)
         while t in out:
@@ -187,7 +251,7 @@ def gen_history(rng, texts, nops):
         elif x < 0.94:
             ops.append(["layout", rng.choice(LAYOUT_KINDS)])
         else:
-            ops.append(["file", rng.choice(FILE_KINDS)])
+            ops.append(["file", rng.choice(FILE_KINDS + [SWAP, SWAP])])
     return {"texts": texts, "ops": ops}
 
 
@@ -211,6 +275,10 @@ def corpus(texts):
             hs.append([P(g), [fam, k], ["reload"], P(g), P(b), P(g)])
             hs.append([[fam, k], P(g), P(g)])
             hs.append([P(g), ["reload"], [fam, k], P(g2), P(g)])
+    g3 = 2
+    hs.append([P(g), P(g2), P(g3), ["file", SWAP], P(g2), P(g3), P(g)])
+    hs.append([P(g), P(g2), P(g3), ["setver", 1, 0], P(g2), ["file", SWAP], P(g3), ["setver", 0, 0], P(g2), P(g3)])
+    hs.append([P(g3), P(g2), P(g), P(b), ["file", SWAP], P(g), P(g2), ["entry", g, "empty", 3], P(g), P(g3)])
     return [{"texts": texts, "ops": h} for h in hs]
 
 
@@ -230,7 +298,7 @@ def judge(case, res):
     none_injected = set()
     for i, (op, ob) in enumerate(zip(case["ops"], res["obs"])):
         k = op[0]
-        if k == "reload":
+        if k == "reload" or (k == "file" and op[1] == SWAP):
             initialized, fault_since = False, False
         elif k == "setver":
             clean = not op[2]
@@ -329,6 +397,11 @@ def encode_case(case, res):
             ops.append("CorruptEntry %s %s" % (cq_nat(op[1]), enc_blob(ob["blob"])))
         elif k == "layout":
             ops.append("CorruptLayout %s" % LAYOUT_COQ[op[1]])
+        elif k == "file" and op[1] == SWAP:
+            if ob.get("applied") == "ok":     # model: the file fails the integrity check, then the process restarts
+                ops.append("CorruptFile")
+                obs.append("(ONone, 0%%nat, %s)" % enc_store(ob.get("store")))
+            ops.append("Reload")
         elif k == "file":
             ops.append("DeleteFile" if op[1] in ("delete", "zero") else "CorruptFile")
         obs.append("(%s, %s, %s)" % (out, cq_nat(ob.get("fresh_calls", 0)), enc_store(ob.get("store"))))
@@ -428,6 +501,7 @@ def run(ctx):
     cases = [{"texts": base_texts, "ops": p} for p in PROBES]
     n_probe = len(cases)
     cases += corpus(base_texts)
+    cases += family_corpus(rng)
     try:
         cases += json.load(open(core.VERIF + "/corpus/C01/cases.json"))
     except OSError:
@@ -612,7 +686,10 @@ def run(ctx):
                                        "histories": len(cases)}
     ctx.assumptions += [
         "_parse is a deterministic function of the text (model: section variable syntax_ok; tree = text id)",
-        "SHA-256 is injective on the texts used (model: key = text id)",
+        "the cache key is injective on texts (model: key = text id; anchored as sha256(text)): validated on every run by "
+        "families of DIFFERENT texts that a tolerant key would merge (trailing blanks, CRLF/CR/LF and the other "
+        "str.splitlines() separators, blank lines, BOM, case, inner blanks, non-ASCII/NFC-NFD, long common prefix), "
+        "including siblings where one has a syntax error or the trees differ; collisions of SHA-256 itself are assumed away",
         "pickle.loads of a damaged value either raises or returns None; a VALID pickle of a different object placed "
         "in a row is outside the property's fault list (the model serves it: OOther) and is not generated",
         "SQLite: a file that is not a database / is truncated fails PRAGMA integrity_check with DatabaseError; "
